@@ -57,6 +57,33 @@ def configs():
     return out
 
 
+def replica_bases(tier, rng):
+    """Threads run different alphabets of the same algorithm at once (shared per-alphabet caches would collide)."""
+    cfg = {c['name']: dict(c, kind='api') for c in configs()}
+    groups = [['luhn-10', 'luhn-16'], ['mod_37_2', 'mod_37_2-0-9X'], ['mod_37_36', 'mod_37_36-dec'], ['luhn-36', 'luhn-6'],
+              ['mod_37_2-hex+', 'mod_37_2'], ['damm', 'verhoeff'], ['mod_97_10-digits', 'mod_97_10-alnum'], ['mod_11_2', 'mod_11_10']]
+    if tier == 'quick':
+        groups = groups[:3] + [rng.choice(groups[3:])]
+    return [[cfg[a], cfg[b]] for a, b in groups]
+
+
+def companion(cfg):
+    """A configuration of the same algorithm whose alphabet has the same length but other symbols/order."""
+    a = cfg['algo']
+    alpha = cfg['alphabet']
+    if a == 'luhn' and len(alpha) >= 4:
+        return dict(cfg, name=cfg['name'] + '~rot', alphabet=alpha[1:] + alpha[:1])
+    if a == 'iso7064.mod_37_2':
+        chk = cfg.get('check_alphabet', alpha)
+        rot = alpha[1:] + alpha[:1]
+        extra = chk[len(alpha):]
+        return dict(cfg, name=cfg['name'] + '~rot', alphabet=rot, check_alphabet=rot + extra, kw={'alphabet': rot + extra})
+    if a == 'iso7064.mod_37_36':
+        rot = alpha[1:] + alpha[:1]
+        return dict(cfg, name=cfg['name'] + '~rot', alphabet=rot, kw={'alphabet': rot})
+    return None
+
+
 def shards(tier):
     return [dict(c, kind='api') for c in configs()] + [dict(c, kind='state', name=c['name'] + '/state') for c in configs()]
 
@@ -328,6 +355,18 @@ def work(shard, tier):
             evals += api_case(A, w, tier, rng, viols, cells)
             if len(samples) < 1 and len(w) > 5:
                 samples.append({'config': shard['name'], 'payload': w[:60], 'check': A.calc(w)})
+        # the same algorithm with a different alphabet of the same length, then the first one again, in this
+        # process: per-alphabet state keyed too coarsely (by length) shows as a wrong check character
+        comp = companion(shard)
+        if comp is not None:
+            B = Algo(comp)
+            for rnd in range(3):
+                for X in (B, A):
+                    for _ in range(15):
+                        L = rng.randrange(1, 20)
+                        w = ''.join(rng.choice(X.alpha) for _ in range(L))
+                        evals += api_case(X, w, tier, rng, viols, cells)
+            counters['companion_alphabet_rounds'] = 3
         counters['api_cells'] = len(cells)
         nontriv = len(cells)
     else:
